@@ -76,6 +76,9 @@ def item_terms(ps, rnd):
         [F["spaces"](7, "k"), F["intspaces"](7, 3, 3)],
         [F["intspaces"](9, 8, 3)],
         [F["dict1"]("x", "."), F["dict1"]("yy", "_"), F["spaces"](None, "h"), F["hexint"]()],
+        # falsy / None values stored in a Dict are values like any other (round-4 seed: a decode table that takes None for a miss)
+        [F["dict1"](None, "."), F["dict1"](0, "_"), F["hexint"]()],
+        [F["dict1"](False, "x"), F["dict1"]("", "y"), F["dict1"](None, "zz")],
     ]
     for fams in out:
         for a, b in itertools.combinations(fams, 2):
